@@ -4,6 +4,7 @@ import DropletsVerif.Driver.C12
 import DropletsVerif.Driver.C11
 import DropletsVerif.Driver.C10
 import DropletsVerif.Driver.C06
+import DropletsVerif.Driver.C02
 
 open DV.Drv
 
@@ -13,6 +14,7 @@ def dispatch (line : String) : String :=
   | "c11" :: args => handleC11 args
   | "c10" :: args => handleC10 args
   | "c06" :: args => handleC06 args
+  | "c02" :: args => handleC02 args
   | _ => "bad-op"
 
 partial def loop (h : IO.FS.Stream) (out : IO.FS.Stream) : IO Unit := do
